@@ -15,20 +15,20 @@ import (
 
 // C16 - commands fail loudly: no panic and no silent success.
 type C16Case struct {
-	Now       int64      `json:"now"`
-	Cmd       string     `json:"cmd"` // view view-raw diff copy sum sum-copy sum-diff generate
-	Files     []TreeFile `json:"files"`
-	DestMode  string     `json:"dest_mode"` // absent | same | perturbed
+	Now       int64       `json:"now"`
+	Cmd       string      `json:"cmd"` // view view-raw diff copy sum sum-copy sum-diff generate
+	Files     []TreeFile  `json:"files"`
+	DestMode  string      `json:"dest_mode"` // absent | same | perturbed
 	Perturb   []SlotWrite `json:"perturb,omitempty"`
-	From      int64      `json:"from"`
-	Until     int64      `json:"until"`
-	ArchiveID int        `json:"archive_id"`
-	Fault     string     `json:"fault"` // none textout-nodir textout-isdir textout-devfull missing-src corrupt-src dest-notdir dest-proc
-	Corrupt   []byte     `json:"corrupt,omitempty"`
-	CopyNaN   bool       `json:"copy_nan"`
-	Header    bool       `json:"header"`
-	Sort      bool       `json:"sort"`
-	Fill      bool       `json:"fill"`
+	From      int64       `json:"from"`
+	Until     int64       `json:"until"`
+	ArchiveID int         `json:"archive_id"`
+	Fault     string      `json:"fault"` // none textout-nodir textout-isdir textout-devfull missing-src corrupt-src dest-notdir dest-proc
+	Corrupt   []byte      `json:"corrupt,omitempty"`
+	CopyNaN   bool        `json:"copy_nan"`
+	Header    bool        `json:"header"`
+	Sort      bool        `json:"sort"`
+	Fill      bool        `json:"fill"`
 }
 
 func runC16(c C16Case, ev *Evid) (fs []Finding) {
@@ -370,8 +370,11 @@ func genC16(t *rapid.T) C16Case {
 		if rapid.Bool().Draw(t, "garbage") {
 			c.Corrupt = rapid.SliceOfN(rapid.Byte(), 0, 60).Draw(t, "garbageBytes")
 		}
+		if rapid.IntRange(0, 3).Draw(t, "bigCount") == 0 {
+			c.Corrupt = genBigCountFile(t)
+		}
 		// a mutation may leave the file valid: force damage in the header
-		if len(c.Corrupt) >= 4 {
+		if len(c.Corrupt) >= 4 && len(c.Corrupt) < 3000 {
 			c.Corrupt[3] = 0x7f
 		}
 	}
@@ -384,8 +387,9 @@ func genC16(t *rapid.T) C16Case {
 
 func TestC16(t *testing.T) {
 	RunProperty(t, Property[C16Case]{
-		ID: "C16",
-		Rule: "rapid-generated invocations of all eight subcommands x archive selection (all / each id / out of range) x window (default, narrow, past, future, beyond the finest retention, degenerate) x copy-nan / header / sort / fill x destination absent / identical / perturbed x environment fault (none, text-out below a missing directory, text-out = a directory, text-out = /dev/full, source missing, source corrupt, destination base below a regular file, destination base under /proc), at a controlled clock. Each case runs a baseline (no text-out / destination fault) and, for those faults, the faulty run. Oracle: no panic escapes Execute; a nil return of the baseline implies the effect (view/sum: the expected point records; view-raw: all physical slots for the default range; copy/sum-copy: destination holds the source's / the sum's values; diff/sum-diff: no differing slot exists; generate: file with the requested header) and is impossible with an out-of-range archive id or a missing/corrupt source; the faulty run must fail when the text output cannot be opened, when a non-empty output cannot be written, or when the destination cannot be created. Non-trivial: a fault or a non-default selection/window is present. Distinct = hash of the case.",
+		NoteCases:   true,
+		ID:          "C16",
+		Rule:        "rapid-generated invocations of all eight subcommands x archive selection (all / each id / out of range) x window (default, narrow, past, future, beyond the finest retention, degenerate) x copy-nan / header / sort / fill x destination absent / identical / perturbed x environment fault (none, text-out below a missing directory, text-out = a directory, text-out = /dev/full, source missing, source corrupt, destination base below a regular file, destination base under /proc), at a controlled clock. Each case runs a baseline (no text-out / destination fault) and, for those faults, the faulty run. Oracle: no panic escapes Execute; a nil return of the baseline implies the effect (view/sum: the expected point records; view-raw: all physical slots for the default range; copy/sum-copy: destination holds the source's / the sum's values; diff/sum-diff: no differing slot exists; generate: file with the requested header) and is impossible with an out-of-range archive id or a missing/corrupt source; the faulty run must fail when the text output cannot be opened, when a non-empty output cannot be written, or when the destination cannot be created. Non-trivial: a fault or a non-default selection/window is present. Distinct = hash of the case.",
 		Assumptions: []string{"checks run as root: permission-based faults are replaced by ENOTDIR / EISDIR / /proc / /dev/full"},
 		Gen:         genC16,
 		Run:         runC16,
